@@ -191,4 +191,37 @@ CHECKS = {
         note=_TB + "; the canonical state is a complete state vector of reader and reading task, so pairwise path "
              "independence extends to all chunkings by induction",
     ),
+    "C02": dict(
+        engine="E4 live-object BFS", level="model_checking", design_ref="5/C02",
+        technique="BFS over the real encoder's shared option array (state = array, transition = assign one entry) + bounded-exhaustive whole messages judged by an independent SD decoder + exhaustive _find words + unrepresentable-message boundaries",
+        text="(1) _find against naive search for all haystacks <=6 / needles <=4 over 3 letters; (2) breadth-first search "
+             "over the shared option array: every state reached by real assign_option_index calls, every entry (run1, run2) "
+             "over words of length <=2 of a 3-option alphabet (kinds rotate with the seed) applied in every state, the "
+             "returned slices must be the entry's own runs and the array may only grow; (3) every path as a whole message "
+             "through build() -> independent decoder and parse().resolve_options(); field boundary sweeps; (4) runs of "
+             "14..17 options, 254..300 shared options, every field one past its width: exception or exact round-trip; "
+             "(5) the same through send_sd and a second endpoint's datagram_received.",
+        note=_TB,
+    ),
+    "C03": dict(
+        engine="E3 bounded-exhaustive inputs", level="exploration", design_ref="5/C03",
+        technique="complete 1-mutation neighbourhood of a seed corpus + all strings of length <=2 through every decoder and through live endpoints; twin-run comparison by canonical state snapshot",
+        text="All 65 793 byte strings of length 0..2 and the complete 1-mutation neighbourhood (every value on structural "
+             "bytes, truncations, insertions, region removal/duplication, 32-bit length corruptions, non-ASCII bytes in "
+             "configuration text) of 12 valid datagrams (99 k inputs) go to 11 decoder entry points (outcome classes) and, "
+             "over unicast and multicast, to a fresh and a warmed-up real discovery endpoint and a service endpoint; the "
+             "resulting state (canonical snapshot of stores, timers, sessions, queues, tasks), callbacks and transmissions "
+             "must equal those of the twin datagram stripped of everything the endpoint must ignore.",
+        note=_TB + "; which SD messages are decodable is decided with the library's own decoder (their meaning is C02/C20)",
+    ),
+    "C20": dict(
+        engine="E3 bounded-exhaustive inputs", level="exploration", design_ref="5/C20",
+        technique="decode-encode-decode over every accepted input of the mutation neighbourhood and of an independent non-canonical encoder, cross-checked with an independent decoder",
+        text="1.09 M decoder calls: the 1-mutation neighbourhood of the corpus at four decoder levels, all 256 option types "
+             "x 6 lengths, all protocol numbers, all flag bytes, configuration strings with garbage, every permutation / "
+             "run pair / empty-run index of a 3-option array, unreferenced and duplicated options. Every accepted input "
+             "(337 k) is re-encoded and re-decoded; the independent decoder must read the same structure from the input "
+             "and from the re-encoded bytes, and must not reject what the library accepts.",
+        note=_TB,
+    ),
 }
